@@ -23,6 +23,13 @@ def register(claim):
           "interpreters. Exploration: pools and history length are bounded.",
           "differential oracle = fresh-interpreter golden; module-level state named in the anchors is monitored as labels only",
           "DESIGN.md 3/C11")
+    claim("C12",
+          "Generated instantiation trees (depth <= 3, fan-out <= 3, repeated templates; whole, slice, index, view, pass-through "
+          "and width-mismatched actuals; instances in architecture(), via std.OpenEntity/ConnectedEntity and inside concurrent "
+          "contexts): emitted interface equals declared ports; one unit per template emitted before use; every formal "
+          "associated once with the given actual (parsed port maps); simulated hierarchical = flat = plain-Python reference on "
+          "every output every clock, all input valuations for combinational trees <= 10 input bits.",
+          SIM_NOTE + "; designs whose port map has a static error are judged statically only", "DESIGN.md 3/C12")
     claim("C13",
           "Generated histories of first uses of the lazily cached parametrised classes (fresh widths per example, "
           "so cache-miss paths run in the generated order) checked against a dict model (identity/distinctness) and "
@@ -41,6 +48,14 @@ def register(claim):
           "additionally a bounded breadth-first lock-step exploration applies every input symbol in every reachable "
           "simulator state. Divergences are minimised to a root-cause signature. Bounded exploration, not proof.",
           SIM_NOTE, "DESIGN.md 3/C01")
+    claim("C02",
+          "Complete enumeration of 1- and 2-operator expression cells over operand kinds (Bit, bool, BitVector, Unsigned, "
+          "Signed, Python int on either side, enum, array) and widths with ALL operand valuations, plus Hypothesis-generated "
+          "depth <= 3 expression trees (widths 1..8 and 16/31/32/33/64): the emitted VHDL is simulated in a concurrent and in a "
+          "clocked context and compared, value by value, with a reference model of the documented semantics; result kind and "
+          "width are compared with the model as well.",
+          SIM_NOTE + "; model returns UNSPEC where the statement is silent (x/0, unrepresentable ints, shift >= width)",
+          "DESIGN.md 3/C02")
     claim("C03",
           "Grammar-generated bodies of clocked, combinational and concurrent contexts (if/elif/else, match, for-break[-else], "
           "helper calls with returns in nested branches, all assignment forms incl. push, slice/bit targets, local "
@@ -56,6 +71,25 @@ def register(claim):
           "a reference-free metamorphic relation (trace after <prefix>.<reset> == trace from power-up) on fully resettable "
           "designs. Bounded exploration.",
           SIM_NOTE, "DESIGN.md 3/C04")
+    claim("C05",
+          "Complete enumeration of (source kind, target kind, widths 1..3/4, assignment form, source qualifier) cells; the "
+          "decision table is the property statement: must-reject cells that cohdl accepts are violations; every accepted "
+          "may-accept cell is simulated for ALL source values and the target must hold the same number / bits.",
+          SIM_NOTE + "; cells the statement does not classify are unspecified", "DESIGN.md 3/C05")
+    claim("C06",
+          "Generated designs with hostile names in every naming slot (reserved words, predefined identifiers the backend "
+          "prints, case variants, underscore decorations, collisions with compiler-generated names, numeric-suffix families; "
+          "complete enumeration of slot x hostile name) and generated expression/cast/slice/array/enum/sub-entity mixes; every "
+          "accepted design is analysed by the independent VHDL static checker (LRM rules, VHDL-93 u 2008 union), elaborated "
+          "and smoke-simulated; every static error is a violation with a root-cause signature.",
+          "the static rule set of cv.vhdl is the meaning of 'a standards-conforming tool accepts'; rules never demand more "
+          "than some conforming edition", "DESIGN.md 3/C06")
+    claim("C07",
+          "Complete enumeration of 2 sites x 2 objects placements and Hypothesis sampling of 2-4 sites x 1-3 objects (signals, "
+          "ports, variables, intermediates; whole/slice/element/run-time element; sequential, concurrent, always-expression, "
+          "sub-entity instance output, inline entity): must-reject placements that are accepted are violations, and for every "
+          "accepted design the driver sets and variable scopes are recomputed from the emitted VHDL.",
+          SIM_NOTE, "DESIGN.md 3/C07")
     claim("C08",
           "Enumerated control-flow skeletons (if/if-else/elif chains/match +- default/for-break +- else, optionally nested, "
           "in clocked, combinational and coroutine contexts) x placements of the definition and use of an intermediate, plus "
@@ -107,6 +141,16 @@ def register(claim):
           "saturate. Observed on Python objects (all cells) and through a traced context with a pyeval probe (sampled).",
           "any cohdl exception counts as rejected; always-rejected cell classes are visible in the label histogram",
           "DESIGN.md 3/C19")
+
+    claim("C20",
+          "Generated register maps (words, multi-field registers, flags, notifications, input/output, arrays, nested RegFile, "
+          "hardware side) x generated master schedules (mapped/unaligned/unmapped addresses; full, partial and empty strobes; "
+          "AW/W skew; BREADY/RREADY delays; back-to-back, pipelined and overlapping transfers; hardware events) simulated clock "
+          "by clock: AXI4-Lite handshake rules on all channels every clock, one response per request and none without, writes "
+          "change exactly the strobed bytes of the addressed register per field kind, reads return the current value, unmapped "
+          "accesses change nothing, exposed values and notifications change within the access window.",
+          SIM_NOTE + "; RESP values and data of unmapped reads are not asserted (undocumented); liveness is bounded response",
+          "DESIGN.md 3/C20")
 
 
 NOT_APPLICABLE = {}
